@@ -103,6 +103,16 @@ def cargo_env(extra=None):
     return env
 
 
+def repo_lockfile():
+    """Path of the repository's Cargo.lock (git-ignored there: created by cargo on first use, so a fresh checkout has none)."""
+    p = os.path.join(REPO, "Cargo.lock")
+    if not os.path.exists(p):
+        subprocess.run(["cargo", "generate-lockfile", "--offline"], cwd=REPO, env=cargo_env(), stdout=subprocess.PIPE, stderr=subprocess.PIPE)
+    if not os.path.exists(p):
+        raise Inconclusive("no Cargo.lock in %s and cargo generate-lockfile failed" % REPO)
+    return p
+
+
 def run(cmd, cwd=None, env=None, timeout=None, check=True, capture=True):
     t = time.time()
     p = subprocess.run(cmd, cwd=cwd, env=env, timeout=timeout, stdout=subprocess.PIPE if capture else None,
@@ -166,7 +176,7 @@ def replay_bin(profile="dev"):
         key = _dir_digest(src)
         if os.path.exists(binp) and os.path.exists(stamp) and open(stamp).read() == key:
             return binp
-        shutil.copyfile(os.path.join(REPO, "Cargo.lock"), os.path.join(src, "Cargo.lock"))
+        shutil.copyfile(repo_lockfile(), os.path.join(src, "Cargo.lock"))
         cmd = ["cargo", "build", "--offline", "--manifest-path", os.path.join(src, "Cargo.toml")]
         if profile != "dev":
             cmd.append("--release")
